@@ -481,6 +481,10 @@ func (t *Tokenizer) Tokenize(input []byte) ([]models.TokenWithSpan, error) {
 				tokenErr = err
 				return
 			}
+			if token.Type == models.TokenTypeWhitespace {
+				// a comment was consumed (and recorded in t.Comments)
+				continue
+			}
 
 			tw := models.TokenWithSpan{
 				Token: token,
@@ -622,6 +626,10 @@ func (t *Tokenizer) TokenizeContext(ctx context.Context, input []byte) ([]models
 				tokenErr = err
 				return
 			}
+			if token.Type == models.TokenTypeWhitespace {
+				// a comment was consumed (and recorded in t.Comments)
+				continue
+			}
 
 			tw := models.TokenWithSpan{
 				Token: token,
@@ -690,6 +698,10 @@ func (t *Tokenizer) skipWhitespace() {
 		break
 	}
 }
+
+// commentSkipped is returned by the lexer when it consumed a comment instead
+// of a token; the tokenizing loops skip it.
+var commentSkipped = models.Token{Type: models.TokenTypeWhitespace}
 
 // nextToken picks out the next token from the input
 func (t *Tokenizer) nextToken() (models.Token, error) {
@@ -1308,9 +1320,9 @@ func (t *Tokenizer) readPunctuation() (models.Token, error) {
 					End:    t.toSQLPosition(t.pos),
 					Inline: t.hasCodeBeforeOnLine(commentStartIdx),
 				})
-				// Return the next token (skip the comment)
-				t.skipWhitespace()
-				return t.nextToken()
+				// The comment is not a token: tell the caller to go on with the
+				// next lexeme (no recursion, so comment runs use no stack).
+				return commentSkipped, nil
 			}
 		}
 		return models.Token{Type: models.TokenTypeMinus, Value: "-"}, nil
@@ -1327,6 +1339,7 @@ func (t *Tokenizer) readPunctuation() (models.Token, error) {
 				commentStartPos := t.toSQLPosition(Position{Index: commentStartIdx})
 				t.pos.AdvanceRune(nxtR, nxtSize)
 				// Skip until */ or EOF
+				closed := false
 				for t.pos.Index < len(t.input) {
 					cr, csize := utf8.DecodeRune(t.input[t.pos.Index:])
 					if cr == '*' {
@@ -1335,12 +1348,21 @@ func (t *Tokenizer) readPunctuation() (models.Token, error) {
 							nr, ns := utf8.DecodeRune(t.input[t.pos.Index:])
 							if nr == '/' {
 								t.pos.AdvanceRune(nr, ns) // End of block comment
+								closed = true
 								break
 							}
 						}
 					} else {
 						t.pos.AdvanceRune(cr, csize)
 					}
+				}
+				if !closed {
+					// the input ends inside the comment: ill-formed text
+					return models.Token{}, errors.NewError(
+						errors.ErrCodeUnterminatedString,
+						"unterminated block comment",
+						commentStartPos,
+					).WithContext(string(t.input), 2).WithHint("Close the comment with */")
 				}
 				t.Comments = append(t.Comments, models.Comment{
 					Text:   string(t.input[commentStartIdx:t.pos.Index]),
@@ -1349,9 +1371,9 @@ func (t *Tokenizer) readPunctuation() (models.Token, error) {
 					End:    t.toSQLPosition(t.pos),
 					Inline: t.hasCodeBeforeOnLine(commentStartIdx),
 				})
-				// Return the next token (skip the comment)
-				t.skipWhitespace()
-				return t.nextToken()
+				// The comment is not a token: tell the caller to go on with the
+				// next lexeme (no recursion, so comment runs use no stack).
+				return commentSkipped, nil
 			}
 		}
 		return models.Token{Type: models.TokenTypeDiv, Value: "/"}, nil
